@@ -9,6 +9,9 @@ use digest::{Digest, FixedOutput};
 use proptest::prelude::*;
 use serde::{Deserialize, Serialize};
 
+/// Longest byte string for which histories are also compared with the (slow) reference model.
+pub static REF_LIMIT: std::sync::atomic::AtomicUsize = std::sync::atomic::AtomicUsize::new(2048);
+
 #[derive(Clone, Copy, Debug, PartialEq, Eq)]
 pub enum Family {
     Blake,
@@ -330,13 +333,13 @@ fn run_conformance(ctx: &mut Ctx, prop: &'static str, family: Family, quick_rand
 }
 
 pub fn run_c04(ctx: &mut Ctx) {
-    run_conformance(ctx, "C04", Family::Blake, 150_000, 3_000_000);
+    run_conformance(ctx, "C04", Family::Blake, 600_000, 6_000_000);
     ctx.required_classes.push("BLAKE exact fit (padding byte 0x81)".into());
     ctx.required_classes.push("BLAKE extra padding block".into());
     ctx.required_classes.push("empty message".into());
 }
 pub fn run_c05(ctx: &mut Ctx) {
-    run_conformance(ctx, "C05", Family::Skein, 60_000, 1_500_000);
+    run_conformance(ctx, "C05", Family::Skein, 200_000, 2_000_000);
     ctx.required_classes.push("Skein several output blocks".into());
     ctx.required_classes.push("Skein output not a multiple of 8 bytes".into());
     ctx.required_classes.push("exact multiple of the block size".into());
@@ -529,7 +532,7 @@ pub fn hhistory_check(prop: &str, specs: &[HashSpec], c: &HHistory, info: &mut C
                 format!("{} after {} updates over {} bytes (clone={}, reused='{}'): {} != one-shot {}", how, inst.updates, inst.model.len(), inst.from_clone, inst.reused, refmodels::hex(got), refmodels::hex(&oneshot)),
             ));
         }
-        if inst.model.len() <= 2048 {
+        if inst.model.len() <= REF_LIMIT.load(std::sync::atomic::Ordering::Relaxed) {
             let want = ref_digest(spec, &inst.model);
             if got != &want[..] {
                 return Err(fail(&format!("{}:DIFFERS-FROM-REFERENCE", how), step, format!("digest of {} bytes differs from the reference model", inst.model.len())));
